@@ -225,7 +225,7 @@ def pasteLoop (P : Params) (gk : List Nat → Bool → Except PyErr (Option κ))
 /-- stable insertion sort on `when` (Python's `list.sort(key=lambda pair: pair[0])` is stable) -/
 def insertSched (x : Time × Ev) : List (Time × Ev) → List (Time × Ev)
   | [] => [x]
-  | y :: ys => if x.1 < y.1 then x :: y :: ys else y :: insertSched x ys
+  | y :: ys => if x.1 ≤ y.1 then x :: y :: ys else y :: insertSched x ys
 
 def sortSched : List (Time × Ev) → List (Time × Ev)
   | [] => []
@@ -234,10 +234,10 @@ def sortSched : List (Time × Ev) → List (Time × Ev)
 /-- fuel that always suffices for the paste loop: each round consumes a byte or returns -/
 def pasteFuel (st : InSt β) : Nat := st.unprocessed.length + st.osbuf.length + 2
 
-/-- `_send` from `e = find_key()` on. `when` is the local variable `when` (unbound = `none`),
-    `tuc` is `time_until_check`. -/
+/-- `_send` from `e = find_key()` on. `tuc` is `time_until_check`. (The local `when` of the first
+    scheduled-events check is dead after it: the check after the wait sorts and reads it again.) -/
 def sendRest (P : Params) (gk : List Nat → Bool → Except PyErr (Option κ)) (val : β → Nat) (waitFuel : Nat)
-    (when : Option Time) (tuc : Option Time) (st : InSt β) (ag : Agenda β) :
+    (tuc : Option Time) (st : InSt β) (ag : Agenda β) :
     Except Fail (Option (Out κ β)) × InSt β × Agenda β :=
   match findKey gk val st.unprocessed [] with
   | (.error e, _, rest) => (.error (.py e), { st with unprocessed := rest }, ag)
@@ -248,13 +248,14 @@ def sendRest (P : Params) (gk : List Nat → Bool → Except PyErr (Option κ)) 
     | (.error f, st, ag) => (.error f, st, ag)
     | (.ok (_, some ev), st, ag) => (.ok (some ev), st, ag)               -- `if event: return event`
     | (.ok (ready, none), st, ag) =>
-      match st.scheduled, when with
-      | (_ :: _), none => (.error (.py .otherException), st, ag)           -- `when` unbound: UnboundLocalError
-      | (w0, e0) :: srest, some w =>
-        if w < st.clock then (.ok (some (.scheduled w0 e0)), { st with scheduled := srest }, ag)
+      -- events may have been scheduled while waiting: sort again and re-read `when`
+      match sortSched st.scheduled with
+      | (w0, e0) :: srest =>
+        let st := { st with scheduled := (w0, e0) :: srest }
+        if w0 < st.clock then (.ok (some (.scheduled w0 e0)), { st with scheduled := srest }, ag)
         else if !ready then (.ok none, st, ag)
         else sendRead P gk val st ag
-      | [], _ =>
+      | [] =>
         if !ready then (.ok none, st, ag) else sendRead P gk val st ag
 where
   /-- from `num_bytes = self._nonblocking_read()` on -/
@@ -291,8 +292,8 @@ def send (P : Params) (gk : List Nat → Bool → Except PyErr (Option κ)) (val
     else
       let d := w - st.clock                                                                   -- max(0, when - now)
       let tuc := match timeout with | none => d | some T => min d T
-      sendRest P gk val waitFuel (some w) (some tuc) st ag
-  | [] => sendRest P gk val waitFuel none timeout st ag
+      sendRest P gk val waitFuel (some tuc) st ag
+  | [] => sendRest P gk val waitFuel timeout st ag
 
 /-- main-thread script -/
 inductive MainOp where
